@@ -1,4 +1,5 @@
 import Proofs.Payouts
+import Proofs.Staking
 import Proofs.Snapshot
 import Proofs.Chain
 import Pegnet.Generated.Facts
@@ -140,6 +141,33 @@ theorem joined_row_is_both_snapshots {cur past : List AddrRow} {x : Addr × List
 theorem staking_constants : Generated.perBlockAssetHolders = 450000000000 ∧ Generated.snapshotRate = 144 ∧
     Generated.perBlockAssetHolders * Generated.snapshotRate ≤ maxUint64 := by decide
 
+/-- **The staking payout, for every address and asset.** When the snapshot step of a block
+    succeeds: the stakers are the addresses present in BOTH snapshots (inner join of the balance
+    table as it stood before the block with the previous snapshot), each valued by `stakeOf` —
+    min(current, previous) of every non-PEG asset, in pUSD; the stakers with a positive stake, in
+    the deterministic order, are credited in PEG exactly their `Payouts` share of 4,500 PEG × 144
+    (`payout_cap`, `payout_exact_when_over`, `payout_full_when_under`, `payout_proportional` say what
+    those shares are); no other balance of anybody changes. -/
+theorem staking_payout_exact (P : Params) (h : Nat) (ts : Int) (rates : TMap) (order : List Addr) (s s' : DB)
+    (hr : snapshotPayouts P h ts rates order s = .ok () s') :
+    ∃ staked, stakesOf P h rates (joinSnapshots s.addrs s.snapCur) = some staked ∧
+      let list := orderStakes order (staked.filter (fun p => decide (p.2 > 0)))
+      let pays := payouts (P.perBlockHolders * P.snapshotRate) (stakeReqs (txidOfHeight h) list)
+      ∀ a x, s'.bal a x = s.bal a x + (if x = tPEG then stakingCredit a (list.zip pays) else 0) :=
+  snapshotPayouts_exact P h ts rates order s s' hr
+
+/-- an address that is not among the valued stakers receives nothing -/
+theorem non_staker_not_credited (a : Addr) (lp : List ((Addr × Nat) × (TxKey × Nat)))
+    (hna : ∀ p ∈ lp, p.1.1 ≠ a) : stakingCredit a lp = 0 := by
+  unfold stakingCredit
+  induction lp with
+  | nil => rfl
+  | cons p rest ih =>
+    have hp : ¬ a = p.1.1 := fun e => hna p List.mem_cons_self e.symm
+    simp only [List.map_cons, List.sum_cons, hp, if_false]
+    rw [ih (fun q hq => hna q (List.mem_cons_of_mem _ hq))]
+    rfl
+
 end Pegnet.C14
 
 #print axioms Pegnet.C14.stakeReqs_keys_nodup
@@ -153,3 +181,5 @@ end Pegnet.C14
 #print axioms Pegnet.C14.no_payout_off_cadence
 #print axioms Pegnet.C14.absent_not_paid
 #print axioms Pegnet.C14.joined_row_is_both_snapshots
+#print axioms Pegnet.C14.staking_payout_exact
+#print axioms Pegnet.C14.non_staker_not_credited
